@@ -3,6 +3,7 @@ package adapt
 import (
 	"fmt"
 	"strings"
+	"sync/atomic"
 
 	"github.com/containerd/nri/pkg/api"
 )
@@ -46,12 +47,35 @@ func valW(valOf string, own int) int {
 	return own
 }
 
+// pal is the value palette of the case being run (Case.Pal): the same symbolic case is
+// rendered with ordinary values (0), with numbers above 2^62 (1), with negative numbers in
+// the signed fields (2), or with strings full of separators and control characters (3). The
+// model derives its expected values through the same functions, so the palette changes what
+// travels through the code under test, not the oracle.
+var pal atomic.Int32
+
+const (
+	palPlain = 0
+	palBig   = 1
+	palNeg   = 2
+	palOdd   = 3
+	numPals  = 4
+)
+
+const oddTail = " =\"q\"\n\t\u00e9\\$X;-"
+
 func strVal(w int, fam, key string) string {
 	if w == wZero {
 		return "" // an empty annotation / env / unified value is a value
 	}
+	if pal.Load() == palOdd {
+		return "=-" + whoName(w) + ":" + fam + "=" + key + oddTail
+	}
 	return whoName(w) + ":" + fam + ":" + key
 }
+
+var signedFields = map[string]bool{"memLimit": true, "memReservation": true, "memSwap": true, "memKernel": true,
+	"memKernelTcp": true, "cpuQuota": true, "cpuRtRuntime": true, "pids": true}
 
 func numVal(w int, field string) int64 {
 	if w == wZero {
@@ -60,7 +84,16 @@ func numVal(w int, field string) int64 {
 	if w < 0 {
 		w = 0
 	}
-	return int64(w*1000 + indexOf(allResFields(), field) + 1)
+	v := int64(w*1000 + indexOf(allResFields(), field) + 1)
+	switch pal.Load() {
+	case palBig:
+		return v + 1<<62
+	case palNeg:
+		if signedFields[field] {
+			return -v
+		}
+	}
+	return v
 }
 
 func mkMount(w int, key string) *api.Mount {
@@ -68,6 +101,9 @@ func mkMount(w int, key string) *api.Mount {
 		// the runtime's mount with one option changed: same destination, type, source and
 		// number of options
 		return &api.Mount{Destination: key, Type: "bind", Source: "/src/rt", Options: []string{"rw", "x-rt"}}
+	}
+	if pal.Load() == palOdd {
+		return &api.Mount{Destination: key, Type: "bind", Source: "/src/" + whoName(w) + " x=y", Options: []string{"ro", "x-" + whoName(w) + "=1 2"}}
 	}
 	return &api.Mount{Destination: key, Type: "bind", Source: "/src/" + whoName(w), Options: []string{"ro", "x-" + whoName(w)}}
 }
@@ -118,15 +154,33 @@ func fieldFam(field string) string {
 }
 
 func mkHook(w int, list string) *api.Hook {
+	if pal.Load() == palOdd {
+		return &api.Hook{Path: "/bin/hook-" + whoName(w) + "-" + list, Args: []string{"hook", "", whoName(w) + "=x y"}, Env: []string{"H=1=2", "E="}}
+	}
 	return &api.Hook{Path: "/bin/hook-" + whoName(w) + "-" + list, Args: []string{"hook", whoName(w)}}
 }
 
 func mkRlimit(w int, key string) *api.POSIXRlimit {
 	v := uint64(w*1000 + indexOf(rlimitKeys, key) + 1)
+	if pal.Load() == palBig {
+		v += 1 << 62
+	}
 	return &api.POSIXRlimit{Type: key, Hard: v + 10, Soft: v}
 }
 
-func mkArgs(w int) []string { return []string{"cmd-" + whoName(w), "arg"} }
+func mkArgs(w int) []string {
+	if pal.Load() == palOdd {
+		return []string{"cmd-" + whoName(w), "", "a=b c", "--x=\n", "-"}
+	}
+	return []string{"cmd-" + whoName(w), "arg"}
+}
+
+func cgPath(w int) string {
+	if pal.Load() == palOdd {
+		return "/cg/" + whoName(w) + ":x=y z"
+	}
+	return "/cg/" + whoName(w)
+}
 
 func hookList(h *api.Hooks, list string) *[]*api.Hook {
 	switch list {
@@ -356,7 +410,7 @@ func origContainer(c Case, id string) *api.Container {
 			}
 		}
 		if o.Cgroups {
-			ct.Linux.CgroupsPath = "/cg/" + whoName(0)
+			ct.Linux.CgroupsPath = cgPath(0)
 		}
 		if o.Oom {
 			ct.Linux.OomScoreAdj = &api.OptionalInt{Value: -7}
@@ -443,7 +497,7 @@ func renderAdjust(s Script) *api.ContainerAdjustment {
 				*p = append(*p, mkHook(w, op.Key))
 				a.AddHooks(h)
 			case "cgroups":
-				a.SetLinuxCgroupsPath("/cg/" + whoName(w))
+				a.SetLinuxCgroupsPath(cgPath(w))
 			case "oom":
 				v := oomVal(w)
 				a.SetLinuxOomScoreAdj(&v)
@@ -461,6 +515,9 @@ func oomVal(w int) int {
 	}
 	if w < 0 {
 		w = 0
+	}
+	if pal.Load() == palNeg {
+		return -(100 + w)
 	}
 	return 100 + w
 }
